@@ -222,6 +222,56 @@ let run_case (line : string) =
             | Coq_inl e -> out " Ierr "; out (exn_name e)
             | Coq_inr ls -> out " I"; out (string_of_int (L.length ls));
               L.iter (fun l -> outc (); pr_str l) ls)))
+   | "acc" ->
+     (* acc <oracles> <ro> : every read accessor of the running order, its stories and items *)
+     let o = rd_oracles r in
+     let ro = rd_xml r in
+     let pr_accz = function
+       | Elements.ANone -> out "N"
+       | Elements.AVal z -> out "V"; out (string_of_int (int_of_z z))
+       | Elements.AErr e -> out "E"; out (exn_name e) in
+     let pr_oz = function None -> out "N" | Some z -> out "V"; out (string_of_int (int_of_z z)) in
+     let pr_strs l = out (string_of_int (L.length l)); L.iter (fun x -> outc (); pr_str x) l in
+     let pr_body l = out (string_of_int (L.length l));
+       L.iter (fun x -> outc (); match x with
+                | Elements.BText t -> out "T "; pr_str t
+                | Elements.BItem i -> out "I "; pr_ostr (Elements.item_id i)) l in
+     (match Proto.rc_of ro with
+      | None -> out "norc"
+      | Some rc ->
+        out "completed="; out (if Classify.ro_completed ro then "1" else "0");
+        out " start="; pr_accz (Elements.ro_start_time o rc);
+        out " end="; pr_accz (Elements.ro_end_time o rc);
+        out " duration="; pr_accz (Elements.ro_duration o rc);
+        (match Elements.ro_script_acc o rc with
+         | Elements.AVal l -> out " script="; pr_strs l
+         | Elements.AErr e -> out " script=E"; out (exn_name e)
+         | Elements.ANone -> out " script=N");
+        (match Elements.ro_body_acc o rc with
+         | Elements.AVal l -> out " body="; pr_body l
+         | Elements.AErr e -> out " body=E"; out (exn_name e)
+         | Elements.ANone -> out " body=N");
+        (match Elements.ro_stories o rc with
+         | Elements.AErr e -> out " stories=E"; out (exn_name e)
+         | Elements.ANone -> out " stories=N"
+         | Elements.AVal l ->
+           out " stories="; out (string_of_int (L.length l));
+           L.iter (fun so ->
+               let x = so.Elements.so_xml in
+               out " | id="; pr_ostr (Elements.story_id x);
+               out " slug="; pr_ostr (Elements.story_slug x);
+               out " dur="; pr_accz (Elements.story_duration o x);
+               out " off="; pr_oz (Elements.so_offset so);
+               out " start="; pr_accz (Elements.so_start_time o so);
+               out " end="; pr_accz (Elements.so_end_time o so);
+               out " script="; pr_strs (Elements.story_script x);
+               out " body="; pr_body (Elements.story_body x);
+               let items = Elements.story_items x in
+               out " items="; out (string_of_int (L.length items));
+               L.iter (fun i ->
+                   out " ; "; pr_ostr (Elements.item_id i); outc (); pr_ostr (Elements.item_slug i);
+                   outc (); pr_ostr (Elements.item_type i); outc (); pr_ostr (Elements.item_object_id i);
+                   outc (); pr_ostr (Elements.item_mos_id i); outc (); pr_ostr (Elements.item_note i)) items) l))
    | "coll" ->
      let o = rd_oracles r in
      let inc = rd_bool r in
